@@ -122,6 +122,18 @@ func Eq(a, b Term) Term {
 	if a.S == b.S {
 		return TTrue
 	}
+	if a.Sort == SBool {
+		switch {
+		case a.S == "true":
+			return b
+		case b.S == "true":
+			return a
+		case a.S == "false":
+			return Not(b)
+		case b.S == "false":
+			return Not(a)
+		}
+	}
 	return App(SBool, "=", a, b)
 }
 
@@ -206,7 +218,7 @@ type solverSpec struct {
 
 var solvers = []solverSpec{
 	{"z3-5.1.0", func(f string, t int) []string {
-		return []string{"z3-new", fmt.Sprintf("-T:%d", t), "smt.random_seed=7", f}
+		return []string{"z3-new", fmt.Sprintf("-T:%d", t), f}
 	}, func(s string) string { return s }},
 	{"z3-4.8.12", func(f string, t int) []string {
 		return []string{"/usr/bin/z3", fmt.Sprintf("-T:%d", t), "smt.random_seed=7", f}
@@ -219,6 +231,9 @@ var solvers = []solverSpec{
 		}
 		return "(set-logic ALL)\n" + s
 	}},
+	{"z3-5.1.0/seed7", func(f string, t int) []string {
+		return []string{"z3-new", fmt.Sprintf("-T:%d", t), "smt.random_seed=7", f}
+	}, func(s string) string { return s }},
 }
 
 var scratchDir string
@@ -255,7 +270,7 @@ func Solve(script string, timeoutSec int, which []int) SolverResult {
 	id := fileCounter.n
 	fileCounter.Unlock()
 	if which == nil {
-		which = []int{0, 1, 2}
+		which = []int{0, 1, 2, 3}
 	}
 	ctx, cancel := context.WithCancel(context.Background())
 	defer cancel()
